@@ -132,6 +132,15 @@ let () =
               else cmp_obj op r (parse_list res) model
             end in
           (try
+            (* object references must denote live objects (a shrunk case may have lost a creating op) *)
+            let nrefs = (match toks.(0) with
+              | "new" | "snap" | "alias" -> 0
+              | "eq" | "sub" | "sup" -> 2
+              | "uni" | "int" | "dif" -> Array.length toks - 1
+              | _ -> 1) in
+            for i = 1 to nrefs do
+              if arg i < 0 || arg i >= !nobj then failwith "bad reference"
+            done;
             match toks.(0) with
             | "new" ->
               let k = (match toks.(1) with "u" -> Unordered | "s" -> Stable | _ -> Sorted) in
